@@ -453,6 +453,12 @@ func matchesSpec(a *types.Assertion, s *AssertionSpec) bool {
 			return false
 		}
 	}
+	if s.NoClassRef {
+		if ac := a.AuthnStatement.AuthnContext; ac == nil || ac.AuthnContextClassRef != nil {
+			return false
+		}
+		return true
+	}
 	if ac := a.AuthnStatement.AuthnContext; ac == nil || ac.AuthnContextClassRef == nil ||
 		ac.AuthnContextClassRef.Value != "urn:oasis:names:tc:SAML:2.0:ac:classes:PasswordProtectedTransport" {
 		return false
@@ -790,6 +796,17 @@ func (g *xgen) applyEdit(doc *etree.Document, rs *ResponseSpec, w *World, kind i
 			a.Relocated = true
 		}
 		return "nest-response-in-clean-response"
+	case 22: // nothing left to assert: every Assertion / EncryptedAssertion child removed (whatever signature the root has)
+		n := 0
+		for _, ch := range root.ChildElements() {
+			if ch.Tag == "Assertion" || ch.Tag == "EncryptedAssertion" {
+				root.RemoveChild(ch)
+				n++
+			}
+		}
+		if n > 0 {
+			return "remove-all-assertions"
+		}
 	case 21: // sender-supplied trust flag
 		target := root
 		if len(as) > 0 && r.Intn(2) == 0 {
@@ -846,7 +863,7 @@ func firstAssertionIndex(root *etree.Element) int {
 	return len(root.Child)
 }
 
-const nEdits = 22
+const nEdits = 23
 
 // ---------- the response stream ----------
 
@@ -1028,9 +1045,32 @@ func runResponseStream(c *Ctx, n int, focus string) {
 			sp.IDPCertificateStore = g.newSPFor(store, now).IDPCertificateStore
 			sp.SkipSignatureValidation = false
 		}
+		// legal shapes of a genuine assertion that ordinary IdP output rarely has
+		if sp.AllowMissingAttributes && r.Intn(2) == 0 {
+			rs.Assertions[0].NoAttrStmt = true // authentication-only assertion: what AllowMissingAttributes exists for
+		}
+		if r.Intn(10) == 0 {
+			rs.Assertions[r.Intn(len(rs.Assertions))].NoClassRef = true
+		}
+		// a LARGE genuine message (user with several hundred group memberships) below the traversal budget, assertion-signed
+		largeGenuine := !hugeFirst && (focus == "C08" || focus == "C01") && (k == 33 || (c.Thorough() && k%500 == 33))
+		if largeGenuine {
+			vals := make([]string, 560+r.Intn(80))
+			for i := range vals {
+				vals[i] = fmt.Sprintf("group-%04d", i)
+			}
+			a0 := rs.Assertions[0]
+			a0.Attrs = []AttrSpec{{Name: "groups", Values: vals}}
+			a0.XsiTypes, a0.CommentInValues, a0.UseCDATA = false, false, false
+			rs.Assertions = rs.Assertions[:1]
+			placement = 2 // (a signed Response of this size runs into goxmldsig's own traversal budget: observation F7)
+			key, mod = w.IdP1, func(o *SignOpts) { o.AfterIssuer = true }
+			store = []*KeyPair{w.IdP1}
+			sp.IDPCertificateStore = g.newSPFor(store, now).IDPCertificateStore
+		}
 		// profile faults injected before signing (the IdP signs them): rejected by Validate although signed
 		profileFault := ""
-		if !hugeFirst && (r.Intn(7) == 0 || (focus == "C03" && r.Intn(2) == 0)) {
+		if !hugeFirst && !largeGenuine && (r.Intn(7) == 0 || (focus == "C03" && r.Intn(2) == 0)) {
 			a := rs.Assertions[r.Intn(len(rs.Assertions))]
 			switch r.Intn(11) {
 			case 5:
@@ -1163,6 +1203,10 @@ func runResponseStream(c *Ctx, n int, focus string) {
 		if hugeFirst {
 			nEd = 1
 			rc.labels = append(rc.labels, "first-assertion-exhausts-traversal-budget")
+		}
+		if largeGenuine {
+			nEd = 0
+			rc.labels = append(rc.labels, "large-genuine-message")
 		}
 		if nEd > 0 {
 			d2 := etree.NewDocument()
@@ -1587,6 +1631,9 @@ func runOneResponse(c *Ctx, cs *CaseSet, rc *respCase, respSigOK bool, profileFa
 			} else if len(resp.Assertions) != 0 && !allIndividually(resp) {
 				c.Violate("spec", "flags:unsigned-response", "unsigned Response accepted with an assertion that is not individually signed", replay)
 			}
+		}
+		if len(resp.Assertions) == 0 {
+			c.Violate("spec", "profile:no-assertion", "a Response was accepted with no assertion at all (C03: at least one assertion)", replay)
 		}
 		if want, ok := lastRootIssuer(rc.raw); ok && (resp.Issuer == nil || resp.Issuer.Value != want) {
 			got := "<nil>"
